@@ -520,6 +520,48 @@ def run_c14(pid, tier, t0, only_chains=False):
                   "a chain the model accepts but rustc rejects is a tool error (exit 2), not a violation"], t0, divs)
 
 
+def matching_inst(fam, splice="paren"):
+    return {"module": "MC_Matching", "spec": "Spec", "constants": {"GuardSplice": '"%s"' % splice, "Fam": '"%s"' % fam, "EmitOn": True},
+            "invariants": ["MacroIsMatch", "Emit"]}
+
+
+def run_matching(pid, tier, t0, want="C06"):
+    """C06: accept bits; C19 (want='C19'): mismatch positions of the same generated program."""
+    import gen, gen_c06
+    fam = "Q" if tier == "quick" else "T"
+    r, cases = gen.tlc_cases(matching_inst(fam), "matching_" + pid.lower(), timeout=1800)
+    if not cases:
+        raise ToolError("Matching.tla emitted no cases")
+    main_rs, exp = gen_c06.render(cases)
+    name = "gen_" + pid.lower() + "m"
+    gen.write_crate(name, main_rs)
+    obs, info = gen.build_and_run(name, timeout=3000)
+    if obs is None:
+        errs, _ = gen.check_errors(name)
+        log(str(info)[-3000:])
+        raise ToolError("generated matching! program does not build/run (%d compile errors; first: %s)" % (len(errs), errs[:1]))
+    d06, d19, model_err = gen_c06.compare(exp, obs)
+    if model_err:
+        raise ToolError("Matching.tla disagrees with rustc's own match on %d inputs (modelling error), e.g. %s" % (len(model_err), model_err[0]))
+    d = d06 if want == "C06" else d19
+    divs = [{"what": x["what"], "step": 0, "expected": x["expected"], "observed": x["observed"], "beh": {"kind": "generated-case", "case": x["exp"]}, "in_scope": True} for x in d]
+    ntuples = sum(len(e["bits"]) for e in exp.values())
+    cov = {"evaluations": ntuples, "distinct_nontrivial": len(exp), "programs": len(exp), "states": r["distinct"], "transitions": r["generated"],
+           "traces_validated_against_impl": len(exp), "exhaustive": True,
+           "samples": [{"matching": e["matching"], "accept_bits_over_domain": e["bits"]} for e in list(exp.values())[5:9]],
+           "rule": "TLC enumerates the inputs of the bounded grammar of tla/Matching.tla (per-type patterns incl. ranges, @, or-patterns, Option/enum/struct-variant, slices with rest, string literals, eq!/ne!, 1-2 top-level alternatives, guards over bindings) and computes accept/reject for EVERY argument tuple of the finite domain (MacroIsMatch: generated closure = statement); each input is rendered as matching!(..) installed as unordered clause (diagnostics off) and ordered clause (diagnostics on) and as a plain Rust match (rustc as second oracle); three-way agreement on every tuple"}
+    if want == "C06":
+        # the model must notice the historical defect (raw splice of an `a || b` guard)
+        rs = vf.run_tlc({"module": "MC_Matching", "spec": "Spec", "constants": {"GuardSplice": '"raw"', "Fam": '"Q"', "EmitOn": False}, "invariants": ["MacroIsMatch"]},
+                        "matching_sens", workers=4, timeout=600)
+        if rs["violated"] != "MacroIsMatch":
+            raise ToolError("sensitivity run (raw guard splice) did not violate MacroIsMatch")
+        cov["sensitivity"] = {"GuardSplice=raw": rs["violated"]}
+    return finish(pid, tier, "exploration", cov, ["guards are menu predicates over bound integers; argument domains are 4-5 values per type",
+                  "a disagreement between the model and rustc's own match is a modelling error (exit 2), a disagreement of matching! with both is the violation",
+                  "inputs the macro rejects at compile time (e.g. three parenthesised top-level alternatives) are outside the statement"], t0, divs)
+
+
 COMMON_ASSUME = [
     "argument domain is a small finite set; matchers are total and side-effect free",
     "expectations are produced by TLC from tla/Mock.tla; the harness only compares observables (return ids, panic classes, verification lines, drop counters)",
@@ -578,6 +620,8 @@ def run_property(pid, tier, t0):
         return run_c17(pid, tier, t0)
     if pid == "C14":
         return run_c14(pid, tier, t0)
+    if pid == "C06":
+        return run_matching(pid, tier, t0, "C06")
     if pid in mockplans.PLANS:
         return mock()
     if pid in CONC_PROGS:
